@@ -431,6 +431,10 @@ func (e *Equation) buildScript(stack []any) []any {
 		} else {
 			stack = e.left.buildScript(stack)
 		}
+		if e.o.cnt < 2 {
+			// A registered function of one argument has no right operand.
+			break
+		}
 		if e.right == nil {
 			stack = append(stack, nil)
 		} else {
